@@ -160,10 +160,20 @@ func HarnessC09_StoreFaults() {
 	vfAssert(l.initRing(ctx) == nil, "C09 initRing succeeds")
 	vfAssert(l.autoJoin(ctx, ACTIVE) == nil, "C09 autoJoin succeeds")
 	leaving := vfChoice("leaving", 2) == 1
-	if leaving {
-		vfAssert(l.changeState(ctx, LEAVING) == nil, "C09 changeState(LEAVING) succeeds")
-	}
 	mine := store.val.(*Desc).Ingesters[vfOwnID]
+	if leaving {
+		if vfChoice("leaving_write_rejected", 2) == 1 {
+			// the store rejects exactly the write that publishes the state change;
+			// the lifecycler remembers the new state and publishes it later
+			store.failFrom, store.failTo = store.calls, store.calls+1
+			vfAssert(l.changeState(ctx, LEAVING) != nil, "C09 a rejected write is reported")
+			store.failFrom = 1 << 30
+			mine.State = LEAVING
+		} else {
+			vfAssert(l.changeState(ctx, LEAVING) == nil, "C09 changeState(LEAVING) succeeds")
+			mine = store.val.(*Desc).Ingesters[vfOwnID]
+		}
+	}
 	// faults: a window of failing writes, then optionally a wipe of the ring key
 	nFail := vfChoice("failing_heartbeats", 3)
 	store.failFrom, store.failTo = store.calls, store.calls+nFail
